@@ -3,6 +3,7 @@ lean/Py4hwV/Net/Sched.lean (literal model of topologicalSort), lean/Py4hwV/Props
 import contextlib, io
 from common import *
 import gen_designs as G, dump_ir as D
+import c04_hist
 
 OBLIGATIONS = ['C04.ffdp_le', 'C04.onePass_perm', 'C04.onePass_nochange', 'C04.sortLoop_sound', 'C04.topoSort_sound',
                'C04.edge_order', 'C04.path_increasing', 'C04.cyclic_rejected', 'C04.selfloop_rejected',
@@ -15,6 +16,12 @@ OBLIGATIONS_COMPLETE = ['C04.accepted_within', 'C04.accepted_of_limit', 'C04.acc
                         'C04.accepted_iff_acyclic', 'C04.acyclic_iff_noCycle', 'C04.accepted_iff_noCycle_upto45',
                         'C04.accepted_of_inversions', 'C04.accepted_iff_noCycle_quadratic_limit',
                         'C04.depth2_needs_n_passes']
+# the clause "and after every clock call" over arbitrary operation histories, with the stateless / stateful boundary explicit
+# (Props/C04Hist.lean), and its instantiation on concrete object graphs running the generated leaf functions (Props/C04HistIR.lean)
+OBLIGATIONS_HIST = ['C04.propagate_settled', 'C04.topoOKH_of_schedule', 'C04.clk_ends_with_propagate', 'C04.create_settled',
+                    'C04.stepH_inv', 'C04.runH_inv', 'C04.history_settled', 'C04.settledB_iff', 'C04.stateful_not_settled',
+                    'C04.latchNotH_wf',
+                    'C04.dyn_stateless', 'C04.call_det', 'C04.sem_prop_fst_sublist', 'C04.wf_of_wfB', 'C04.ir_history_settled']
 COMB_KINDS = ['And2', 'Or2', 'Not', 'Buf', 'Mux2', 'Sub', 'Mul', 'AddCarryIn', 'Constant', 'ShiftLeftConstant',
               'ShiftRightConstant', 'Bit', 'Range', 'ZeroExtend', 'SignExtend', 'Repeat', 'ConcatenateLSBF',
               'ConcatenateMSBF', 'BitsLSBF', 'BitsMSBF', 'SignedMul']
@@ -36,6 +43,44 @@ def graph_of(sysobj):
                     ss.append(pid[id(sp.parent)])
         succs.append(ss)
     return props, pid, succs
+
+
+def true_graph(sysobj, props=None):
+    """the dependency graph the PROPERTY speaks about, read from the ports only (never from Wire.sinks / Wire.source, which are the
+    scheduler's own bookkeeping): u -> v iff some output port of the propagatable leaf u and some input (or in/out) port of the
+    propagatable leaf v hold the same Wire object.  Leaves are identified by object identity (two leaves in different parents may
+    carry the same instance name).  ids = position in the allLeaves() sub-list of propagatable leaves, as in graph_of."""
+    if props is None:
+        props = [l for l in sysobj.allLeaves() if l.isPropagatable()]
+    readers = {}
+    for vi, l in enumerate(props):
+        for port in list(l.inPorts) + list(getattr(l, 'inOutPorts', [])):
+            if port.wire is not None:
+                readers.setdefault(id(port.wire), [])
+                if vi not in readers[id(port.wire)]:
+                    readers[id(port.wire)].append(vi)
+    succs = []
+    for l in props:
+        ss = []
+        for port in l.outPorts:
+            if port.wire is not None:
+                for vi in readers.get(id(port.wire), []):
+                    if vi not in ss:
+                        ss.append(vi)
+        succs.append(ss)
+    return succs
+
+
+def discovery_check(res, sysobj, props, succs, tsuccs, sm):
+    """hypothesis `hedges` of C04.topoOK_of_sorted / C04.history_settled on the real object graph: every data dependency between two
+    propagatable leaves (ports on a common wire) is among the sinks the scheduler collects, and nothing else is"""
+    for u, (a, b) in enumerate(zip(succs, tsuccs)):
+        if set(a) != set(b):
+            res.disagree('dependency-discovery',
+                         dict(leaf=props[u].getFullPath(), wire_sinks=[props[v].getFullPath() for v in a],
+                              port_readers=[props[v].getFullPath() for v in b], design=sm.get('plan'), inst_order=sm.get('inst_order')))
+            return False
+    return True
 
 
 def comb_cycle_lengths(succs):
@@ -75,16 +120,89 @@ def longest_path(succs):
     return max([lp(u) for u in range(n)] + [0])
 
 
-def add_ring(plan, rng, length):
-    """append a combinational ring of `length` leaves (And2/Or2/Buf/Not) to the plan"""
+def add_ring(plan, rng, length, twins=False):
+    """append a combinational ring of `length` leaves (And2/Or2/Buf/Not) to the plan.  twins: the ring members are spread over
+    the containers of the plan and some of them get a TWIN: a second cell of the same kind with the same instance name in
+    another container that reads the same wire through the same port (its output goes nowhere) — the ring passes through
+    one of two same-named readers of a wire"""
     base = len(plan['nodes'])
+    ndom = len(plan.get('domains', [None]))
+    tw = []
     for t in range(length):
         prev = ('node', base + (t - 1) % length, 0)
         kind = rng.choice(['Buf', 'Not', 'And2', 'Or2'])
         nd = {'kind': kind, 'name': f'ring{t}', 'ins': [prev], 'outw': [1], 'params': {}, 'dom': 0}
         if kind in ('And2', 'Or2'):
             nd['ins'] = rng.shuffle([prev, ('in', 0)])
+        if twins and ndom > 1:
+            rt = rng.fork(('twin', t))
+            nd['dom'] = rt.randint(0, ndom - 1)
+            nd['inst'] = f'ring{t}'
+            if rt.chance(2, 3):
+                other = rt.choice([d_ for d_ in range(ndom) if d_ != nd['dom']])
+                tw.append(dict(nd, name=f'ringtw{t}', dom=other, ins=list(nd['ins'])))
         plan['nodes'].append(nd)
+    plan['nodes'] += tw
+
+
+def hier_plan(rng, n_nodes):
+    """a random plan in which a sub-set of the nodes (the 'block') is instantiated several times, each instance in its own
+    container with the SAME instance names inside; references inside the block are private to each instance, references
+    to the outside are mostly shared between the instances (two instances of one structural block reading the same wires);
+    a few cells outside the block reuse the block's instance names in their own container, and a few cells combine the
+    outputs of the instances.  Leaves are therefore NOT identified by their instance name, only by their full path."""
+    plan = G.random_plan(rng, n_nodes, seq_ratio=(1, 6), wmax=rng.choice([1, 3, 8]), kinds=COMB_KINDS + ['Reg', 'Sequence'], n_domains=0)
+    nodes = plan['nodes']
+    n = len(nodes)
+    rh = rng.fork('hier')
+    cand = [j for j in range(n) if not nodes[j].get('late')]
+    if not cand:
+        cand = [0]
+    tsize = rh.randint(1, min(4, len(cand)))
+    T = sorted(rh.shuffle(cand)[:tsize])
+    m = rh.randint(2, 3)
+    for d_ in range(m):
+        plan['domains'].append({'parent': rh.randint(0, d_) if rh.chance(1, 3) else 0, 'gated': False, 'enable': None})
+    for x, j in enumerate(T):
+        nodes[j]['dom'] = 1
+        nodes[j]['inst'] = f'u{x}'
+
+    def width_of(ref):
+        return plan['inputs'][ref[1]][1] if ref[0] == 'in' else nodes[ref[1]]['outw'][ref[2]]
+    for c in range(2, m + 1):
+        remap = {j: len(nodes) + x for x, j in enumerate(T)}
+        for x, j in enumerate(T):
+            src = nodes[j]
+            ins = []
+            for ref in src['ins']:
+                if ref[0] == 'node' and ref[1] in remap:
+                    ins.append(('node', remap[ref[1]], ref[2]))
+                elif rh.chance(3, 4):
+                    ins.append(ref)                                       # shared between the instances
+                else:
+                    same = [('in', i_) for i_ in range(len(plan['inputs'])) if plan['inputs'][i_][1] == width_of(ref)]
+                    ins.append(rh.choice(same) if same else ref)
+            nodes.append(dict(src, name=f'n{len(nodes)}', inst=src['inst'], dom=c, ins=ins, outw=list(src['outw']),
+                              params=dict(src['params'])))
+    # cells outside the block that carry one of the block's instance names (unique within their own container)
+    used = {}
+    for j, nd in enumerate(nodes):
+        used.setdefault(nd.get('dom', 0), set()).add(nd.get('inst', nd['name']))
+    for j in range(n):
+        if j not in T and rh.chance(1, 3):
+            dm = rh.randint(0, m) if rh.chance(1, 2) else 0
+            nm = f'u{rh.randint(0, tsize - 1)}'
+            if nm not in used.setdefault(dm, set()) and not nodes[j].get('late'):
+                nodes[j]['dom'] = dm
+                nodes[j]['inst'] = nm
+                used[dm].add(nm)
+    # consumers of the instances' outputs
+    for _ in range(rh.randint(0, 2)):
+        a = ('node', rh.choice(T), 0)
+        b = ('node', len(nodes) - 1 - rh.randint(0, tsize * (m - 1) - 1), 0)
+        nodes.append({'kind': rh.choice(['And2', 'Or2', 'Sub']), 'name': f'n{len(nodes)}', 'ins': rh.shuffle([a, b]),
+                      'outw': [rh.randint(1, 8)], 'params': {}, 'dom': 0})
+    return plan
 
 
 def refixpoint_oracle(res, sysobj, summary, when):
@@ -347,7 +465,8 @@ def main(res, tier, rng, replay):
     ok, metas, errors, changed = regenerate()
     for e in errors:
         res.broken.append(('translator', 'py2lean', e))
-    res.proof_stage('Py4hwV.Props.C04Complete', OBLIGATIONS + OBLIGATIONS_COMPLETE, extra_modules=['Py4hwV.Props.C04'])
+    res.proof_stage('Py4hwV.Props.C04HistIR', OBLIGATIONS + OBLIGATIONS_COMPLETE + OBLIGATIONS_HIST,
+                    extra_modules=['Py4hwV.Props.C04', 'Py4hwV.Props.C04Complete', 'Py4hwV.Props.C04Hist'])
     # pass limit as written in the source today
     src = open(os.path.join(REPO, 'py4hw', 'simulation.py')).read()
     # the pass limit as written in the source today: either a literal or `maxloops = max(K, len(self.propagatables) + 1)`
@@ -374,22 +493,14 @@ def main(res, tier, rng, replay):
     reqs, expect, info = [], [], []
     nb = D.NetBatch(res, 'net-sim')
     maxpasses = 0
-    for i in range(n_designs):
-        r = rng.fork(('d', i))
-        size = r.choice([2, 3, 5, 8, 13, 30]) if tier == 'quick' else r.choice([2, 3, 5, 8, 13, 30, 80, 200])
-        # every fifth design spreads its leaves over several clock domains (gated drivers on containers): combinational paths
-        # cross the domains and must be ordered like any other path
-        plan = G.random_plan(r, size, seq_ratio=(1, 6), wmax=r.choice([1, 3, 8]),
-                             kinds=COMB_KINDS + ['Reg', 'Sequence'], n_domains=(r.fork('nd').randint(1, 3) if i % 5 >= 3 else 0))
-        ring = 0
-        if i % 3 == 2:
-            G.register_inputs(plan)
-        if r.chance(1, 4):
-            ring = r.choice([1, 1, 2, 2, 3, 5])
-            add_ring(plan, r, ring)
+
+    def run_design(i, r, plan, ring, disturb, tag='flat'):
+        """one plan, two random instantiation orders: sorter tie, dependency discovery, every oracle of the property"""
         order1 = r.shuffle(range(len(plan['nodes'])))
         order2 = r.shuffle(range(len(plan['nodes'])))
         summary = dict(plan=G.plan_summary(plan), inst_order=order1, ring=ring)
+        if tag != 'flat':
+            summary['instance_names'] = [nd.get('inst', nd['name']) for nd in plan['nodes']]
         built = []
         for order in (order1, order2):
             try:
@@ -400,12 +511,13 @@ def main(res, tier, rng, replay):
                 break
             built.append((sysobj, ins, W, order))
         if not built:
-            continue
+            return
         traces = []
         for sysobj, ins, W, order in built:
             props, pid, succs = graph_of(sysobj)
-            cyc = comb_cycle_lengths(succs)
-            depth = longest_path(succs) if cyc is None else None
+            tsuccs = true_graph(sysobj, props)
+            cyc = comb_cycle_lengths(tsuccs)          # the property's notion of 'cyclic': over the port-derived graph
+            depth = longest_path(tsuccs) if cyc is None else None
             exc = None
             try:
                 sim = sysobj.getSimulator()
@@ -416,6 +528,7 @@ def main(res, tier, rng, replay):
             info.append(dict(summary, inst_order=order))
             res.count(('sort', str(succs)), hist={'netlist_leaves': len(props) // 10 * 10, 'cycle_len': cyc if cyc else 0})
             sm = dict(summary, inst_order=order, cycle_length=cyc, depth=depth, n_leaves=len(props))
+            discovered = discovery_check(res, sysobj, props, succs, tsuccs, sm)
             # --- oracle on the implementation
             if cyc is not None and not exc:
                 res.fail(f'netlist with a combinational cycle of length {cyc} was accepted and simulated', sm)
@@ -428,10 +541,13 @@ def main(res, tier, rng, replay):
             pos = {id(o): k for k, o in enumerate(sim.propagatables)}
             if sorted(pos.values()) != list(range(len(props))) or len(pos) != len(props):
                 res.fail('Simulator.propagatables is not a permutation of the propagatable leaves', sm)
+            if cyc is not None:
+                traces.append(None)       # accepted cycle: already reported, nothing further to compare
+                continue
             refixpoint_oracle(res, sysobj, sm, 'after simulator construction')
             ops = [(o[0], o[1].name, o[2]) if o[0] == 'poke' else o for o in G.random_ops(r.fork('ops'), ins, 6)]
             names = {w.name: w for w in D.all_wires(sysobj)}
-            if i % 4 == 3:
+            if disturb:
                 # disturbances: a combinationally driven wire is overwritten from outside between clock calls while the inputs of its
                 # driver keep their values; the next clk() must bring the netlist back to its fixpoint
                 rd = r.fork('disturb')
@@ -445,24 +561,55 @@ def main(res, tier, rng, replay):
                 ops = ops2
             tr = []
             real_ops = [('poke', names[o[1]], o[2]) if o[0] == 'poke' else o for o in ops]
-            if cyc is None:
-                try:
-                    nb.add(sysobj, real_ops, sim=sim, label=i,
-                           extra_check=after_op(res, sysobj, sm, tr))
-                except D.NotDumpable:
-                    pass
-                refixpoint_oracle(res, sysobj, sm, 'after clk()')
+            try:
+                nb.add(sysobj, real_ops, sim=sim, label=(tag, i),
+                       extra_check=after_op(res, sysobj, sm, tr))
+            except D.NotDumpable:
+                pass
+            refixpoint_oracle(res, sysobj, sm, 'after clk()')
             traces.append(tr)
         if traces[0] is not None and traces[1] is not None and traces[0] != traces[1] and ring == 0:
             res.fail('wire values depend on the order in which blocks were instantiated',
                      dict(summary, inst_order_a=order1, inst_order_b=order2))
         if i < 2:
             res.sample(summary)
+
+    for i in range(n_designs):
+        r = rng.fork(('d', i))
+        size = r.choice([2, 3, 5, 8, 13, 30]) if tier == 'quick' else r.choice([2, 3, 5, 8, 13, 30, 80, 200])
+        # every fifth design spreads its leaves over several clock domains (gated drivers on containers): combinational paths
+        # cross the domains and must be ordered like any other path
+        plan = G.random_plan(r, size, seq_ratio=(1, 6), wmax=r.choice([1, 3, 8]),
+                             kinds=COMB_KINDS + ['Reg', 'Sequence'], n_domains=(r.fork('nd').randint(1, 3) if i % 5 >= 3 else 0))
+        ring = 0
+        if i % 3 == 2:
+            G.register_inputs(plan)
+        if r.chance(1, 4):
+            ring = r.choice([1, 1, 2, 2, 3, 5])
+            add_ring(plan, r, ring)
+        run_design(i, r, plan, ring, i % 4 == 3)
+    # hierarchical designs: several instances of one structural block (same instance names inside, shared inputs), cells at the
+    # top level that reuse those names, rings that pass through one of two same-named readers of a wire
+    for i in range(100 if tier == 'quick' else 400):
+        r = rng.fork(('h', i))
+        plan = hier_plan(r, r.choice([2, 3, 5, 8, 13]) if tier == 'quick' else r.choice([2, 3, 5, 8, 13, 30]))
+        ring = 0
+        if i % 3 == 2:
+            G.register_inputs(plan)
+        if r.chance(1, 4):
+            ring = r.choice([1, 2, 2, 3, 5])
+            add_ring(plan, r, ring, twins=True)
+        run_design(i, r, plan, ring, i % 4 == 3, tag='hier')
+        res.hist('hier_designs', 'ring' if ring else 'dag')
     try:
         nb.run()
     except ToolFailure as e:
         res.broken.append(('correspondence', 'net-sim', str(e)[:300]))
     late_additions(res, rng.fork('late'), 60 if tier == 'quick' else 1200)
+    try:
+        c04_hist.history_stream(res, rng.fork('history'), 60 if tier == 'quick' else 300, hier_plan, refixpoint_oracle)
+    except ToolFailure as e:
+        res.broken.append(('correspondence', 'history', str(e)[:300]))
     bidir_stream(res, rng.fork('bidir'), 40 if tier == 'quick' else 800)
     prepare_stimulus_stream(res, rng.fork('prepstim'), 40 if tier == 'quick' else 800)
     try:
@@ -510,8 +657,15 @@ def main(res, tier, rng, replay):
                        'optional combinational ring of length 1-5 appended, each built in two random instantiation orders; real '
                        'Simulator.propagatables (exact order) or exception vs the Lean model of topologicalSort; oracle on the implementation: '
                        're-running propagate() of every stateless leaf changes no wire (fixpoint) after construction and after clk, the two '
-                       'instantiation orders give identical values, cyclic netlists raise, acyclic ones do not; all wires vs the Lean simulator model')
-    res.assumptions += ['Part B treats leaves as stateless functions with fixed read/write sets (Latch, AsynchronousMemory, Div/Mod by zero excluded)',
+                       'instantiation orders give identical values, cyclic netlists raise, acyclic ones do not; all wires vs the Lean simulator model; '
+                       'hierarchical plans (replicated blocks with identical inner instance names sharing inputs, rings through one of two '
+                       'same-named readers); cyclic/acyclic decided on the PORT-derived graph, which is also compared with the sinks the scheduler '
+                       'collects; histories (construction, pokes on any wire, clk(n>=0), late additions + getSimulator()) vs the Lean session model '
+                       'that sorts by itself, with the decidable hypotheses of C04.history_settled (HNet.wfB) and the Lean predicate Sess.Settled '
+                       'evaluated on the observed wire values after construction and after every clk')
+    res.assumptions += ['Part B treats leaves as stateless functions with fixed read/write sets (Latch, AsynchronousMemory, Div/Mod by zero excluded); '
+                        'C04.history_settled makes the boundary explicit: propagatables with state may be anywhere in the netlist, the claim is about the '
+                        'wires driven by the kinds in Net.statelessKinds (C04.dyn_stateless proves those ignore their attributes, on the generated code)',
                         'convergence of the swap sorter within n passes on acyclic netlists is a conjecture (only explored, see passes_used); '
                         'completeness is therefore claimed only as far as explored — the hard-coded pass limit makes it false in general (known finding)']
 
